@@ -402,6 +402,13 @@ impl VM {
                         )));
                     }
                     let [ip, num_locals] = obj.as_function();
+                    // every argument needs a local slot of the callee
+                    if num_args as u32 > num_locals {
+                        return Err(Error::ArgumentError(format!(
+                            "functie aangeroepen met te veel argumenten ({})",
+                            num_args
+                        )));
+                    }
                     #[cfg(feature = "verif")]
                     if num_locals < num_args as u32 {
                         crate::verif::fault("call-locals");
